@@ -955,10 +955,7 @@ def real_access(r, acc, e):
         return real_access(dup, acc["sub"], e)
     try:
         if a == "feats":
-            try:
-                f = r.feats
-            except AttributeError:
-                return {"e": "AttributeError", "at": "attr"}     # the row has no `feats` at all (distinguished from feats.<sub> raising)
+            f = r.feats
             fe = None
             if e is not None:
                 try:
@@ -967,11 +964,7 @@ def real_access(r, acc, e):
                     fe = None
             return real_access(f, acc["sub"], fe)
         if a == "label":
-            try:
-                lab = r.label
-            except AttributeError:
-                return {"e": "AttributeError", "at": "attr"}
-            return val(canon_val(lab))
+            return val(canon_val(r.label))
         if a == "tipe":
             return val(canon_val(r.tipe))
         if a == "len":
@@ -1141,12 +1134,6 @@ def touches_label_part(acc):
     return acc["a"] in ("feats", "label", "tipe")
 
 
-def lnl_sig(sig):
-    """the two symptoms of the forced hypothesis `label stage last`: a stale value (the unrepaired __getattr__ forwards
-    feats/label through later wrappers; fixes/C13-stale-feats-label.diff) / AttributeError (the repaired code: no answer at all)"""
-    return sig.endswith(":label-not-last") or sig.endswith(":label-not-last-raises")
-
-
 def effective(st):
     """does the stage wrap / change the rows at all"""
     if st["op"] == "drop":
@@ -1171,7 +1158,7 @@ def strip(acc):
 
 
 def known_sig(sig):
-    return lnl_sig(sig) or open_sig(sig)
+    return sig.endswith(":label-not-last") or open_sig(sig)
 
 
 def leaf_how(acc):
@@ -1204,10 +1191,8 @@ def areas(case, acc):
     lp = label_pos(stages)
     out = []
     if acc is not None and lp is not None and touches_label_part(acc) and any(effective(st) for st in stages[lp + 1:]):
-        # the repaired wrappers do not pass feats / label / labeled on (AttributeError): never a wrong value, but no value either
-        out.append(("%s:label-not-last-raises" % kind, lambda how, err, exp: err == "AttributeError@attr", lambda exp: False))
-        # unrepaired: the stale value of the inner label wrapper; the model mirrors the repaired code, so (A) waits for the repair
-        out.append(("%s:label-not-last" % kind, lambda how, err, exp: True, lambda exp: acc["a"] in ("feats", "label")))
+        # feats / label / tipe are forwarded unchanged through the later wrappers (recorded C13-F8/F9; the model forwards them too: no (A) suspension)
+        out.append(("%s:label-not-last" % kind, lambda how, err, exp: True, lambda exp: False))
     if case.get("_order_hit"):
         out.append(("dense:header-map-order", lambda how, err, exp: True))
     if enccat_on_lazy(case):
@@ -1241,8 +1226,6 @@ def classify(case, acc, exp, got):
     kind / access / symptom / outermost stage.  acc is None for table-level failures (pipeline raised, row count)."""
     kind = case["kind"]
     err = got.get("e") if isinstance(got, dict) else None
-    if err and got.get("at"):
-        err += "@" + got["at"]
     how = "raises" if err else ("no-raise" if (exp and "e" in exp) else "wrong")
     for a in areas(case, acc):
         if a[1](how, err, exp or {}):
@@ -1329,13 +1312,18 @@ class C13(Property):
             "EncodeCatRows(onehot|onehot_tuple|string|None); 3-10 accesses (position incl. len and len+1, name, iter, len, keys, items, copy, "
             "headers, == same/reflected/lazy/perturbed, label, tipe, feats.<access>) on one row, the same accesses permuted and then repeated "
             "on a fresh copy; in 45 % of the cases the SAME filter objects then process one or two further tables (the first table with columns permuted / "
-            "one removed / one added, headers and base encoders moving with their column, or converted dense<->sparse), each judged against its own eager model and sent through the model's `session` in one request (theorem filter_stateless); 4 % of the multi-row dense tables are jagged (flag nonuniform: only the first-row model is compared); 6 % of the cases are 2-3 dense tables that differ only in the header map (own HeadRows(list|mapping in dict/MappingProxyType/ChainMap/custom Mapping flavours), shared LabelRows, by-name access on feats), 5 % have cells that are lists/dicts holding categoricals under EncodeCatRows ((B) only); every case compares its source data deeply before/after; 22 % of the accesses are made on a copy of the row taken at that point of the history (copy.copy / copy.deepcopy / pickle round trip; pickle is skipped where the object holds a lambda or closure), the copy must be indistinguishable from the eager row and the original unchanged; non-trivial = at least one stage or a lazy base, and at least 3 accesses with an eager value; distinct by canonical JSON")
+            "one removed / one added, headers and base encoders moving with their column, or converted dense<->sparse), each judged against its own eager model and sent through the model's `session` in one request (theorem filter_stateless); 4 % of the multi-row dense tables are jagged and 30 % of the multi-row plain sparse tables under EncodeCatRows have a later dict with other keys / categoricals than the first (flag nonuniform: only the first-row model tableD1 / tableS1 is compared); 6 % of the cases are 2-3 dense tables that differ only in the header map (own HeadRows(list|mapping in dict/MappingProxyType/ChainMap/custom Mapping flavours), shared LabelRows, by-name access on feats), 5 % have cells that are lists/dicts holding categoricals under EncodeCatRows ((B) only); every case compares its source data deeply before/after; 22 % of the accesses are made on a copy of the row taken at that point of the history (copy.copy / copy.deepcopy / pickle round trip; pickle is skipped where the object holds a lambda or closure), the copy must be indistinguishable from the eager row and the original unchanged; the model receives the copy steps as Acc.clone (theorems access_after_clone, clone_leaves_original); non-trivial = at least one stage or a lazy base, and at least 3 accesses with an eager value; distinct by canonical JSON")
     trusted_base = [
         "cells are small ints, decimal-integer strings, short words, '?', '', None and Categoricals; float() of ARFF numerics is modelled on "
         "integer literals only (an integer-valued float: equal to the int, str() gives 'N.0'; compared as an exact rational)",
         "dense tables: the driver runs the first-row model tableD1 (filter arguments from the first incoming row, as the code); the per-row theorems apply when "
-        "uniformRun holds (theorem first_row_irrelevant; reported per case as `uniform`, part of hyp). Sparse tables: EncodeCatRows' keys and LabelRows' `_inv` are still "
-        "taken from the observed row itself (tables with equal key sets for categoricals / one header map)",
+        "uniformRun holds (theorem first_row_irrelevant; reported per case as `uniform`, part of hyp). Sparse tables likewise: tableS1 takes EncodeCatRows' keys and "
+        "LabelRows' `_inv` from the first dict, uniformRunS / first_row_irrelevant_sparse; a table whose rows carry different header maps (different `_inv`) cannot be "
+        "built through the readers and is covered by the Lean counterexample first_dict_counterexample only",
+        "a copy of a row (copy.copy / copy.deepcopy / pickle) is the same model row (Acc.clone sub = sub on the same wrapper tree and cell state); that the real copies "
+        "behave so is checked by (B)/(A) on every copied access",
+        "feats / label of a row that was labelled and then wrapped again: the model forwards them unchanged like the code (stale values, recorded C13-F8/F9); "
+        "(A) is compared there, (B) failures are matched to the two known entries",
         "sparse rows: the order in which EncodeSparse/LazySparse list their default ('not sparse') entries is a Python set order; the model fixes one order and the "
         "harness compares items()/copy() as finite maps",
         "ARFF text parsing itself (tokenising, dialect detection) belongs to C12; here ArffReader only sees simple comma/space separated tokens",
@@ -1350,8 +1338,11 @@ class C13(Property):
     ]
     partial_theorems = {
         "Coba.C13.feats_label_partial": "forced hypothesis: LabelRows is the last stage. feats/label/tipe are forwarded by __getattr__ to the "
-                                        "LabelDense wrapper and ignore every stage applied afterwards (feats_label_counterexample, recorded C13-F8); "
-                                        "no small repair exists (every wrapper class would need its own feats/label with new index arithmetic)",
+                                        "LabelDense wrapper and ignore every stage applied afterwards (feats_label_counterexample, recorded C13-F8). "
+                                        "The small repair fixes/C13-stale-feats-label.diff (stop forwarding feats/label/labeled) was proposed and NOT applied: "
+                                        "SupervisedSimulation.read decides with hasattr(first,'label') between labelled rows and (X,Y) pairs, so a wrapped labelled row "
+                                        "would silently be read as a pair, and forwarding is correct for wrappers that keep values/columns; a full repair needs "
+                                        "its own feats/label with new index arithmetic in every wrapper class",
         "Coba.C13.feats_label_sparse_partial": "same forced hypothesis for sparse rows (feats_label_sparse_counterexample, recorded C13-F9)",
     }
 
@@ -1928,6 +1919,27 @@ class C13(Property):
             case["nonuniform"] = True
             case["ri"] = j if rng.chance(0.7) else case["ri"]
             return case
+        if (case["kind"] == "sparse" and case["base"]["wrap"] == "plain" and len(case["rows"]) > 1 and case["rows"][0]
+                and any(st["op"] == "enccat" and st.get("t") for st in case["stages"]) and rng.chance(0.3)):
+            # a jagged sparse table: a later dict does not have the first dict's keys / categoricals. EncodeCatRows takes the categorical
+            # keys from the first dict (theorem first_dict_counterexample): only the first-row model (tableS1) is compared.
+            j = 1 + rng.below(len(case["rows"]) - 1)
+            row = [list(kv) for kv in case["rows"][j]]
+            cats = [i for i, kv in enumerate(row) if isinstance(kv[1], dict) and "cat" in kv[1]]
+            plain_i = [i for i in range(len(row)) if i not in cats]
+            how = rng.below(3)
+            if how == 0 and row:
+                del row[rng.below(len(row))]
+            elif how == 1 and cats:
+                row[rng.choice(cats)][1] = rng.choice(["x", 3, None])
+            elif cats and plain_i:
+                row[rng.choice(plain_i)][1] = dict(row[cats[0]][1])
+            elif row:
+                del row[rng.below(len(row))]
+            case["rows"][j] = row
+            case["nonuniform"] = True
+            case["ri"] = j if rng.chance(0.7) else case["ri"]
+            return case
         k = rng.wchoice([(5, 0), (4, 1), (2, 2)])
         if k and case["rows"] and case["stages"]:
             case["others"] = [self.derive_table(rng, case) for _ in range(k)]
@@ -2065,6 +2077,13 @@ class C13(Property):
                 [{"a": "iter"}, {"a": "len"}, {"a": "name", "k": "b"}, {"a": "headers"}, {"a": "pos", "i": 1}], 1)
         nu["nonuniform"] = True
         cs.append(nu)
+        # jagged sparse tables (theorem first_dict_counterexample): EncodeCatRows encodes the keys that are categorical in the FIRST dict
+        ca, cb = {"cat": "p", "lv": ["p", "q"]}, {"cat": "q", "lv": ["p", "q"]}
+        for t in ("string", "onehot", "onehot_tuple"):
+            for jag in ([[["a", ca]], [["a", "x"], ["b", cb]]], [[["a", ca]], [["b", 1]]], [[["a", ca], ["b", 1]], [["a", 3], ["b", 2]]]):
+                nu = mk("sparse", plain, jag, [{"op": "enccat", "t": t}], [{"a": "items"}, {"a": "keys"}, {"a": "len"}, {"a": "name", "k": "b"}], 1)
+                nu["nonuniform"] = True
+                cs.append(nu)
         # LabelRows(int) on header-mapped sparse rows: the label is translated to its header name
         cs.append(mk("sparse", {"wrap": "arff", "cols": [{"name": "a", "t": "num"}, {"name": "b", "t": "cat", "lv": ["p", "q"]}, {"name": "c", "t": "str"}]},
                      [[[0, "1"], [2, "x"]], [[1, "q"]]], [{"op": "label", "k": 1, "t": "c"}], full_s + lab_s))
@@ -2230,7 +2249,7 @@ class C13(Property):
             has_enccat = any(st["op"] == "enccat" and st.get("t") is not None for st in case["stages"])
             # EncodeCatRows looks at the first row only to decide whether anything is categorical; the model decides per row.
             # The two differ only when materialising some row raises, i.e. when the eager table is undefined.
-            susp_all = tfail is not None or (open_sig(kind + ":enccat-on-lazy-row") and enccat_on_lazy(case)) or (has_enccat and et is None)
+            susp_all = tfail is not None or (open_sig(kind + ":enccat-on-lazy-row") and enccat_on_lazy(case)) or (has_enccat and et is None and not case.get("nonuniform"))
             susp_absent = suspended(case, None)
             if susp_all or (susp_absent and ("pipe_err" in mreal) != ("pipe_err" in m)):
                 tags.append("A-suspended")
@@ -2269,8 +2288,8 @@ class C13(Property):
                 if d:
                     fails.append(F("A", "implementation and model differ: %s" % d[0], "A:" + d[1]))
             # (C) the theorems, at run time: model refines spec; a history of accesses = independent accesses
-            if kind == "dense" and ans.get("hyp") and not ans.get("uniform", True):
-                tags.append("not-uniform")          # some row does not look like the first row: outside first_row_irrelevant
+            if ans.get("hyp") and not ans.get("uniform", True):
+                tags.append("not-uniform")          # some row does not look like the first row: outside first_row_irrelevant(_sparse)
                 ans["hyp"] = False
             if kind == "sparse" and ans.get("hyp") and not ans.get("leak_safe", True):
                 tags.append("not-leak-safe")        # a stage addresses a hidden raw key of a header-mapped base: outside the theorems
